@@ -21,15 +21,35 @@ Streams
               scalar and array values, three cell classes, random `on`, class mismatch, unknown
               join type, empty operands, duplicate coordinates and prev-only variants
               (hypothesis false: compared with the model only)
+  lessons     a fixed quota in every run (after the streams above; `lesson/<stream>/<tag>` in the histogram;
+              VERIF_SKIP_LESSONS=1 drops them), through the same item builders / model comparison / Spec
+              predicates / sequence checks as the other cases:
+              large (operands of 256-320 cells with the smaller one left / right / neither, one slice of 256
+              cells, 260 slices on one side, 260 fields in one cell, arrays of 256 / 1000 / 255|257|4096),
+              overlap (Q1 / H1 / YTD and Q4 / H2 / YTD families on one or both sides), offgrid (half-month
+              periods, evaluation dates on the 15th and the last day of ONE month, incremental cells differing
+              in prev only -- between the sides and inside one), late (coalesce of 4-6 triangles where only a
+              late one fills an interior hole / adds a slice / adds a field, early ones empty; joins whose
+              LAST-sorting slice alone differs in one attribute, dataclass defaults included), options (`on`
+              = all six attributes permuted +- every detail key / "details" / as a tuple / [] / () / None,
+              details differing while the six agree and vice versa), twin (same coordinates, metadata and
+              sizes, other values, consecutively), derived (filter / clip / slicing / select / derive_* /
+              right_edge of parents whose cached accessors were read and that were operated on; arguments
+              omitted), falsy (right / left values 0, 0.0, None, empty array, False; limit / details / strings
+              falsy in every slice; empty operands; statics [] / every field / missing field)
 """
 import datetime
 import hashlib
 import itertools
 import json
+import os
+
+import numpy as np
 
 import common
 from common import w_cell, call
 import gen
+import c09_seq
 import bermuda
 from bermuda import Triangle, Metadata, Cell, CumulativeCell, IncrementalCell
 
@@ -148,11 +168,15 @@ def impl_pairs(b, res, fresh=False):
 # the operators under test
 # ------------------------------------------------------------------------------------------
 
-def do_join(ta, tb, ty, on):
+def do_join(ta, tb, ty, on, defaults=False):
+    if defaults:                       # join type and `on` left to their defaults
+        return bermuda.join(ta, tb)
     return bermuda.join(ta, tb, ty, on)
 
 
-def do_merge(ta, tb, ty, on):
+def do_merge(ta, tb, ty, on, defaults=False):
+    if defaults:
+        return ta.merge(tb)
     return ta.merge(tb, join_type=ty, on=on)
 
 
@@ -168,7 +192,9 @@ def do_add_statics(ta, tb, statics):
     return ta.add_statics(tb, statics)
 
 
-def do_period_merge(ta, tb, suffix):
+def do_period_merge(ta, tb, suffix, defaults=False):
+    if defaults:
+        return ta.period_merge(tb)
     return ta.period_merge(tb, suffix=suffix)
 
 
@@ -290,25 +316,31 @@ def subsets(cells):
 # item builders
 # ------------------------------------------------------------------------------------------
 
-def add_join_merge(ctx, b, ta, tb, ty, on, tag, digest, with_merge=True):
-    r = call(do_join, ta, tb, ty, on)
+def add_join_merge(ctx, b, ta, tb, ty, on, tag, digest, with_merge=True, on_impl=None, defaults=False, fresh=False):
+    """`on_impl`: a 1-tuple holding what the implementation is handed for `on` (tuple instead of list ...; the model
+    always gets the list `on`); `defaults`: join type / `on` omitted in the call (ty must be "full", on None);
+    `fresh`: convert the result without the per-object wire cache. Returns the implementation's results."""
+    on_i = on_impl[0] if on_impl is not None else on
+    r = call(do_join, ta, tb, ty, on_i, defaults)
     b.add({"op": "join", "ty": ty, "on": on, "a": b.idxs(ta.cells), "b": b.idxs(tb.cells),
-           "impl": impl_pairs(b, r)}, {"tag": tag, "digest": digest + ":join"})
+           "impl": impl_pairs(b, r, fresh)}, {"tag": tag, "digest": digest + ":join"})
     if not with_merge:
         ctx.count(f"{tag}/join-only/ty={ty}")
-        return
-    r = call(do_merge, ta, tb, ty, on)
+        return r, None
+    r2 = call(do_merge, ta, tb, ty, on_i, defaults)
     b.add({"op": "merge", "ty": ty, "on": on, "a": b.idxs(ta.cells), "b": b.idxs(tb.cells),
-           "impl": impl_cells(b, r)}, {"tag": tag, "digest": digest + ":merge"})
+           "impl": impl_cells(b, r2, fresh)}, {"tag": tag, "digest": digest + ":merge"})
     ctx.count(f"{tag}/join+merge/ty={ty}")
     ctx.count(f"{tag}/join+merge/on={('+'.join(on) if on else on) if tag.startswith('exh') else (on if not on else str(len(on)) + ' names')}")
+    return r, r2
 
 
-def add_coalesce(ctx, b, ts, tag, digest):
+def add_coalesce(ctx, b, ts, tag, digest, fresh=False):
     r = call(do_coalesce, ts)
-    b.add({"op": "coalesce", "ts": [b.idxs(t.cells) for t in ts], "impl": impl_cells(b, r)},
+    b.add({"op": "coalesce", "ts": [b.idxs(t.cells) for t in ts], "impl": impl_cells(b, r, fresh)},
           {"tag": tag, "digest": digest + ":coalesce"})
     ctx.count(f"{tag}/coalesce/n={len(ts)}")
+    return r
 
 
 def add_coalesce_forms(ctx, b, rng, ts, tag, digest):
@@ -340,19 +372,21 @@ def add_coalesce_forms(ctx, b, rng, ts, tag, digest):
         ctx.count(f"{tag}/coalesce-container/{name}")
 
 
-def add_statics_item(ctx, b, ta, tb, statics, tag, digest):
+def add_statics_item(ctx, b, ta, tb, statics, tag, digest, fresh=False):
     r = call(do_add_statics, ta, tb, statics)
     b.add({"op": "addStatics", "a": b.idxs(ta.cells), "b": b.idxs(tb.cells),
-           "statics": DEFAULT_STATICS if statics is None else statics, "impl": impl_cells(b, r)},
+           "statics": DEFAULT_STATICS if statics is None else statics, "impl": impl_cells(b, r, fresh)},
           {"tag": tag, "digest": digest + ":add_statics"})
     ctx.count(f"{tag}/add_statics/n_statics={'default' if statics is None else len(statics)}")
+    return r
 
 
-def add_period_merge(ctx, b, ta, tb, suffix, tag, digest):
-    r = call(do_period_merge, ta, tb, suffix)
+def add_period_merge(ctx, b, ta, tb, suffix, tag, digest, defaults=False, fresh=False):
+    r = call(do_period_merge, ta, tb, suffix, defaults)
     b.add({"op": "periodMerge", "a": b.idxs(ta.cells), "b": b.idxs(tb.cells), "suffix": suffix,
-           "impl": impl_cells(b, r)}, {"tag": tag, "digest": digest + ":period_merge"})
-    ctx.count(f"{tag}/period_merge/suffix={suffix!r}")
+           "impl": impl_cells(b, r, fresh)}, {"tag": tag, "digest": digest + ":period_merge"})
+    ctx.count(f"{tag}/period_merge/suffix={'default' if defaults else repr(suffix)}")
+    return r
 
 
 def tri_digest(t):
@@ -573,6 +607,12 @@ def seq_case(ctx, b, rng, kind, i):
     st3, tc = call(Triangle, perturb_right(rng, left, kind))
     if "err" in (st, st2, st3):
         return
+    seq_run(ctx, b, rng, ta, tb, tc, kind, i)
+
+
+def seq_run(ctx, b, rng, ta, tb, tc, kind, i, tag="seq", n_steps=None):
+    """the sequence checks on GIVEN operands (target `ta`, sources `tb`, `tc`): shared by the random sequence
+    cases and the lesson cases"""
     operands = {"a": ta, "b": tb, "c": tc}
     st, reb = call(lambda: tb.right_edge)
     st2, rec = call(lambda: tc.right_edge)
@@ -603,12 +643,11 @@ def seq_case(ctx, b, rng, kind, i):
         on = rng.choice(["default", None, ("country",), tuple(rng.sample(detail_keys + ["currency", "risk_basis"], 2))])
         return (op, other, (rng.choice(["default"] + JOIN_TYPES), on))
 
-    base = [mk_step() for _ in range(rng.randrange(4, 8))]
+    base = [mk_step() for _ in range(n_steps if n_steps is not None else rng.randrange(4, 8))]
     again = list(base)
     rng.shuffle(again)
     steps = base + again                      # every call happens (at least) twice, other calls in between
     seen = {}
-    tag = "seq"
     for n, (op, other, par) in enumerate(steps):
         tb_ = operands[other]
         if op == "add_statics":
@@ -640,8 +679,8 @@ def seq_case(ctx, b, rng, kind, i):
             item = {"op": op, "ty": "full" if ty == "default" else ty,
                     "on": None if on in ("default", None) else list(on), "a": orig["a"], "b": orig[other],
                     "impl": impl}
-        b.add(item, {"tag": tag, "digest": f"seq:{i}:{n}"})
-        ctx.count(f"seq/{op}")
+        b.add(item, {"tag": tag, "digest": f"{tag}:{i}:{n}"})
+        ctx.count(f"{tag}/{op}")
         # (a) the same call again must give the same observable result
         if r[0] != "ok":
             obs = json.dumps({"err": r[1]})
@@ -680,13 +719,591 @@ def seq_case(ctx, b, rng, kind, i):
                      "during a sequence of join/merge/coalesce/add_statics/period_merge calls",
                      {"operand": k, "before": before[k]["cells"], "steps": [list(map(str, s_)) for s_ in steps]},
                      {"differs": [x for x in after if after[x] != before[k][x]]})
-    ctx.case(digest=f"seq:{tri_digest(ta)}:{tri_digest(tb)}:{tri_digest(tc)}:{len(steps)}", nontrivial=len(ta) > 0,
-             sample={"stream": "seq", "kind": kind, "steps": [s_[0] for s_ in steps]} if i < 1 else None)
+    ctx.case(digest=f"{tag}:{tri_digest(ta)}:{tri_digest(tb)}:{tri_digest(tc)}:{len(steps)}", nontrivial=len(ta) > 0,
+             sample={"stream": "seq", "kind": kind, "steps": [s_[0] for s_ in steps]} if i < 1 and tag == "seq" else None)
 
 
 def sequence_stream(ctx, b, rng, n_cases):
     for i in range(n_cases):
         seq_case(ctx, b, rng, rng.choice(["C", "U", "I"]), i)
+
+
+# ------------------------------------------------------------------------------------------
+# lesson cases (generator lessons of seeded batch 4): a fixed quota in EVERY run, after the streams above
+# (whose random draws they leave untouched). They go through the same item builders as the exhaustive /
+# random cases (model comparison + Spec predicates on the implementation's output in `correspondence`) and
+# through `seq_run`; histogram keys `lesson/<stream>/<tag>`. VERIF_SKIP_LESSONS=1 drops them (experiments).
+# ------------------------------------------------------------------------------------------
+
+def me(y, m):
+    m0 = y * 12 + (m - 1)
+    return gen.month_end(m0 // 12, m0 % 12 + 1)
+
+
+def accessors_by_identity(t):
+    """slices / right_edge / metadata / periods of a triangle with cells named by object identity (a fresh
+    Triangle over the same cell objects must give the same; the cells' content is the model comparison's business)"""
+    out = {}
+    st, sl = call(lambda: t.slices)
+    out["slices"] = sorted(([json.dumps(common.w_meta(m), sort_keys=True), [id(c) for c in x.cells]] for m, x in sl.items())) \
+        if st == "ok" else sl
+    st, re = call(lambda: t.right_edge)
+    out["right_edge"] = [id(c) for c in re.cells] if st == "ok" else re
+    st, ms = call(lambda: t.metadata)
+    out["metadata"] = [common.w_meta(m) for m in ms] if st == "ok" else ms
+    st, ps = call(lambda: t.periods)
+    out["periods"] = [[common.w_date(x), common.w_date(y)] for x, y in ps] if st == "ok" else ps
+    return out
+
+
+def check_result_accessors(ctx, op, res, case):
+    """(c) cached / derived accessors of a result against values recomputed from its cells"""
+    bad = c09_seq.accessors_consistent(res)
+    got, fresh = accessors_by_identity(res), accessors_by_identity(Triangle(list(res.cells)))
+    bad += [k for k in got if got[k] != fresh[k] and k not in bad]
+    if bad:
+        ctx.fail(f"{op}: accessors of the result differ from those recomputed from its cells",
+                 {"op": op, "result_cells": [w_cell(c) for c in res.cells], **case}, {"differs": bad})
+
+
+def lesson_case(ctx, b, rng, stream, tag, ta, tb, *, ons=(None,), tys=JOIN_TYPES, on_impl=None, statics=(None,),
+                suffixes=(None,), pm_right=None, coalesce=(), repeat=False, defaults=False, merge_tys=None,
+                check_acc=True):
+    """one lesson case = one operand pair (+ triangle lists for coalesce) through every operator:
+    join + merge for tys x ons, add_statics for every entry of `statics` (None = argument omitted), period_merge
+    (right operand `pm_right`, default: right edge of tb) for every suffix, coalesce for every list.
+    `repeat`: every call is made a second time after the first RESULT has been spoiled in place.
+    `defaults`: one extra round with every optional argument omitted. `merge_tys`: join types for which merge is
+    run as well (default: all). Operands must be unchanged afterwards; accessors of every triangle result are
+    compared with values recomputed from its cells (operands of > 120 cells: of the first merge result only)."""
+    ctx.count(f"lesson-stream/{stream}")
+    ctx.count(f"lesson/{stream}/{tag}")
+    t = f"lesson/{stream}"
+    if pm_right is None:
+        st, re = call(lambda: tb.right_edge)
+        pm_right = re if st == "ok" else tb
+    inputs = [ta, tb, pm_right] + [x for ts in coalesce for x in ts]
+    before = [tri_digest(x) for x in inputs]
+    in_cells = {id(c) for x in inputs for c in x.cells}
+    in_dicts = {id(c.values) for x in inputs for c in x.cells}
+    dg = f"{t}:{tag}:{before[0]}:{before[1]}"
+    info = {"stream": stream, "tag": tag}
+    big, first = len(ta) + len(tb) > 120, True
+
+    def after_call(op, r, again):
+        if r is None or r[0] != "ok":
+            return
+        if check_acc and op != "join":
+            check_result_accessors(ctx, op, r[1], info)
+        if repeat:
+            mutate_result(rng, r[1], in_cells, in_dicts)
+            again()
+
+    for on in ons:
+        oi = None if on_impl is None else (on_impl(on),)
+        for ty in tys:
+            merge = merge_tys is None or ty in merge_tys
+            rj, rm = add_join_merge(ctx, b, ta, tb, ty, on, t, f"{dg}:{ty}:{on}", with_merge=merge, on_impl=oi)
+            if check_acc and rm is not None and rm[0] == "ok" and (first or not big):
+                check_result_accessors(ctx, "merge", rm[1], info)
+                first = False
+            if repeat:
+                for r_ in (rj, rm):
+                    if r_ is not None and r_[0] == "ok":
+                        mutate_result(rng, r_[1], in_cells, in_dicts)
+                add_join_merge(ctx, b, ta, tb, ty, on, t, f"{dg}:{ty}:{on}:again", with_merge=merge, on_impl=oi, fresh=True)
+    for s_ in statics:
+        r = add_statics_item(ctx, b, ta, tb, s_, t, f"{dg}:{s_}")
+        after_call("add_statics", r, lambda: add_statics_item(ctx, b, ta, tb, s_, t, f"{dg}:{s_}:again", fresh=True))
+    for sfx in suffixes:
+        r = add_period_merge(ctx, b, ta, pm_right, sfx, t, f"{dg}:pm:{sfx}")
+        after_call("period_merge", r, lambda: add_period_merge(ctx, b, ta, pm_right, sfx, t, f"{dg}:pm:{sfx}:again", fresh=True))
+    for n, ts in enumerate(coalesce):
+        r = add_coalesce(ctx, b, list(ts), t, f"{dg}:co:{n}")
+        after_call("coalesce", r, lambda: add_coalesce(ctx, b, list(ts), t, f"{dg}:co:{n}:again", fresh=True))
+    if defaults:
+        # (d) every optional argument omitted: join_type, on, statics, suffix
+        ctx.count(f"lesson/{stream}/defaults-omitted")
+        rj, rm = add_join_merge(ctx, b, ta, tb, "full", None, t, f"{dg}:defaults", defaults=True, fresh=True)
+        if check_acc and rm[0] == "ok":
+            check_result_accessors(ctx, "merge", rm[1], info)
+        r = add_statics_item(ctx, b, ta, tb, None, t, f"{dg}:defaults", fresh=True)
+        after_call("add_statics", r, lambda: None)
+        r = add_period_merge(ctx, b, ta, pm_right, None, t, f"{dg}:pm:defaults", defaults=True, fresh=True)
+        after_call("period_merge", r, lambda: None)
+    after = [tri_digest(x) for x in inputs]
+    if after != before:
+        ctx.fail("an operand was changed by join / merge / coalesce / add_statics / period_merge",
+                 {"stream": stream, "tag": tag, "a": [w_cell(c) for c in ta.cells], "b": [w_cell(c) for c in tb.cells]},
+                 {"changed operand index": [i for i in range(len(before)) if before[i] != after[i]]})
+    ctx.case(digest=dg, nontrivial=len(ta) > 0 or len(tb) > 0, sample=None)
+
+
+def layout_cells(rng, kind, meta, rows, fields, vkind="int", n_samples=3, mixed=False):
+    """cells of one slice for rows (ps, pe, [evaluation dates]); incremental: prev chain along the row"""
+    if not mixed:
+        return gen.cells_from_layout(rng, rows, meta, kind=kind, fields=fields, vkind=vkind, n_samples=n_samples)
+    out = []
+    for ps, pe, evs in rows:
+        prev = ps - datetime.timedelta(days=1)
+        for ev in evs:
+            out.append(mk_cell(kind, ps, pe, prev, ev, rand_values(rng, fields), meta))
+            prev = ev
+    return out
+
+
+def revalue(rng, cells, how):
+    """same coordinates, metadata, field names, value kinds and sizes -- other values"""
+    out = []
+    for c in cells:
+        vals = {}
+        for k, v in c.values.items():
+            if v is None:
+                vals[k] = None
+            elif how == "rescaled":
+                vals[k] = v * 2 + 1
+            elif isinstance(v, np.ndarray):
+                vals[k] = gen.rand_value(rng, "iarr" if v.dtype.kind in "iu" else "farr", n_samples=v.size, lo=0, hi=64)
+            else:
+                vals[k] = gen.rand_value(rng, "int" if isinstance(v, int) else "float", lo=64, hi=128)
+        out.append(c.replace(values=vals))
+    return out
+
+
+# ---- lesson 1: size thresholds ---------------------------------------------------------------
+
+def lesson_large(ctx, b, rng, rep):
+    S = "large"
+    kind = "CUI"[(rng.randrange(3) + rep) % 3]
+    m1, m2 = Metadata(country="US", details={"k": 1}), Metadata(country="DE", details={"k": 2})
+    # 320 coordinates: ONE slice of 256 cells (128 monthly periods x 2 evaluation dates) + one of 64 (16 x 4)
+    rows = gen.layout_regular(rng, res=1, n_periods=128, n_lags=2, start_year=2005, shape="square")
+    rows2 = gen.layout_regular(rng, res=1, n_periods=16, n_lags=4, start_year=2015, shape="square")
+    lf = rng.choice(_FIELD_SETS[:4])
+    Lfull = layout_cells(rng, kind, m1, rows, lf) + layout_cells(rng, kind, m2, rows2, lf)
+    Rfull = layout_cells(rng, kind, m1, rows, ["paid_loss", "earned_premium"], vkind="float") + \
+        layout_cells(rng, kind, m2, rows2, ["earned_premium", "earned_exposure"], vkind="float")
+    # (a) operands of >= 256 cells whose sizes straddle each other: the smaller one left / right / neither
+    combos = [("cells-320-vs-257-right-smaller", 320, 257), ("cells-256-vs-320-left-smaller", 256, 320),
+              ("cells-300-vs-300-equal", 300, 300)]
+    with_on = rng.randrange(3)
+    for j, (tag, nl, nr) in enumerate(combos):
+        ta, tb = Triangle(rng.sample(Lfull, nl)), Triangle(rng.sample(Rfull, nr))
+        lesson_case(ctx, b, rng, S, tag, ta, tb, ons=[None], suffixes=[rng.choice([None, "_r"])],
+                    coalesce=[[tb, ta]] if j == with_on else [], merge_tys=["inner"] + rng.sample(JOIN_TYPES, 1))
+        if j == with_on:
+            lesson_case(ctx, b, rng, S, tag + "/on", ta, tb, ons=[["k", "country"]], tys=["inner", rng.choice(JOIN_TYPES)],
+                        statics=[], suffixes=[], check_acc=False, merge_tys=["inner"])
+    # (b) >= 256 slices on one side; the few slices of the other side: first, an interior one, the LAST one
+    metas = [Metadata(country="US", details={"k": i}) for i in range(260)]
+    prow = [(D(2020, 1, 1), D(2020, 12, 31), [D(2020, 12, 31), D(2021, 12, 31)])]
+    many = [c for i, m in enumerate(metas) for c in layout_cells(rng, kind, m, [(prow[0][0], prow[0][1], prow[0][2][:1 + i % 2])], ["paid_loss"])]
+    few = [c for m in (metas[0], metas[131], metas[259], Metadata(country="FR", details={"k": 7}))
+           for c in layout_cells(rng, kind, m, prow, ["paid_loss", "earned_premium"], vkind="float")]
+    tm, tf = Triangle(many), Triangle(few)
+    for tag, ta, tb in [("slices-260-left", tm, tf), ("slices-260-right", tf, tm)]:
+        lesson_case(ctx, b, rng, S, tag, ta, tb, ons=[None], suffixes=["_pm"], merge_tys=["inner", "full"])
+        lesson_case(ctx, b, rng, S, tag + "/on", ta, tb, ons=[rng.choice([["k"], SIX + ["k"]])], tys=["inner", rng.choice(JOIN_TYPES)],
+                    statics=[], suffixes=[], check_acc=False, merge_tys=["inner"])
+    # (c) >= 256 fields in one cell (union / precedence field by field; every field a static)
+    co = [(D(2020, 1, 1), D(2020, 12, 31), D(2020, 12, 31)), (D(2020, 1, 1), D(2020, 12, 31), D(2021, 12, 31)),
+          (D(2021, 1, 1), D(2021, 12, 31), D(2021, 12, 31))]
+    lnames, rnames = [f"f{i:03d}" for i in range(260)], [f"f{i:03d}" for i in range(100, 300)]
+    rng.shuffle(rnames)
+
+    def wide(names, coords, vk):
+        return [mk_cell(kind, ps, pe, D(2019, 12, 31) if ev == D(2020, 12, 31) or ps.year == 2021 else D(2020, 12, 31), ev,
+                        {n: gen.rand_value(rng, vk, lo=0, hi=64) for n in names}, m1) for ps, pe, ev in coords]
+    ta, tb = Triangle(wide(lnames, co, "int")), Triangle(wide(rnames, co[1:], "float"))
+    lesson_case(ctx, b, rng, S, "fields-260-left-200-right", ta, tb, tys=["full", "inner", "right"],
+                statics=[None, sorted(set(lnames + rnames)), rnames[:128]], suffixes=[None, "_r"], coalesce=[[ta, tb]])
+    lesson_case(ctx, b, rng, S, "fields-200-left-260-right", tb, ta, tys=["full", "left", "inner"],
+                statics=[lnames], suffixes=[""])
+    # (d) arrays of 256 / 1000 / one more size as values (dtype and element order survive the union)
+    n3 = rng.choice([255, 257, 4096])
+    ctx.count(f"lesson/{S}/array-size={n3}")
+
+    def arrs(coords, spec):
+        return [mk_cell(kind, ps, pe, D(2019, 12, 31) if ev == D(2020, 12, 31) or ps.year == 2021 else D(2020, 12, 31), ev,
+                        {n: gen.rand_value(rng, vk, n_samples=sz, lo=0, hi=64) for n, vk, sz in spec}, m1)
+                for ps, pe, ev in coords]
+    ta = Triangle(arrs(co, [("paid_loss", "iarr", 256), ("reported_loss", "farr", 1000), ("earned_premium", "iarr", n3)]))
+    tb = Triangle(arrs(co[:2], [("paid_loss", "farr", 256), ("earned_premium", "iarr", 1000), ("earned_exposure", "farr", n3)]))
+    lesson_case(ctx, b, rng, S, "arrays-256-1000", ta, tb, tys=["full", "inner", "left_anti"], suffixes=[None, "_r"],
+                coalesce=[[tb, ta]], repeat=True)
+    lesson_case(ctx, b, rng, S, "arrays-256-1000/swapped", tb, ta, tys=["full", "right"], statics=[["paid_loss", "reported_loss"]])
+
+
+# ---- lesson 2: non-disjoint period layouts -----------------------------------------------------
+
+def nested_rows(y, which, n_ev=3):
+    """periods of year y sharing a start (Q1 stub / H1 / YTD) and / or an end (Q4 / H2 / YTD), common evaluation dates"""
+    evs = [me(y, 12), me(y + 1, 6), me(y + 1, 12)][:n_ev]
+    fam = {"q1": (D(y, 1, 1), me(y, 3)), "h1": (D(y, 1, 1), me(y, 6)), "ytd": (D(y, 1, 1), me(y, 12)),
+           "q4": (D(y, 10, 1), me(y, 12)), "h2": (D(y, 7, 1), me(y, 12))}
+    return [(fam[w][0], fam[w][1], list(evs)) for w in which]
+
+
+def lesson_overlap(ctx, b, rng, rep):
+    S = "overlap"
+    ma, mb, mc = Metadata(country="DE"), Metadata(country="US"), Metadata(country="ZZ", details={"k": 1})
+    allp = ["q1", "h1", "ytd", "q4", "h2"]
+    plain = gen.layout_regular(rng, res=12, n_periods=2, n_lags=2, start_year=2020, shape="square")
+    cases = [
+        ("same-start+same-end/both-sides", [(ma, allp), (mb, allp)], [(ma, allp), (mb, allp)]),
+        ("same-start/one-member-right", [(ma, ["q1", "h1", "ytd"]), (mb, ["q1", "h1", "ytd"])], [(ma, ["h1"]), (mb, ["q1"])]),
+        ("same-start/one-member-left", [(ma, ["ytd"]), (mb, ["h1"])], [(ma, ["q1", "h1", "ytd"]), (mb, ["q1", "h1", "ytd"])]),
+        ("same-end/one-member-right", [(mb, ["q4", "h2", "ytd"])], [(mb, ["h2"]), (mc, ["q4", "ytd"])]),
+        ("only-last-slice-nested", [(ma, None), (mb, None), (mc, ["q1", "h1", "ytd", "h2"])],
+         [(ma, None), (mb, None), (mc, ["h1", "ytd", "q4"])]),
+    ]
+    for j, (tag, lspec, rspec) in enumerate(cases):
+        kind = "UIC"[(j + rep) % 3]
+
+        def build(spec, fields, vk):
+            cells = []
+            for m, which in spec:
+                rows = plain if which is None else nested_rows(2020, which, n_ev=rng.choice([2, 3]))
+                cells += layout_cells(rng, kind, m, rows, fields, vkind=vk)
+            return Triangle(cells)
+        ta = build(lspec, ["paid_loss", "earned_premium"], "int")
+        tb = build(rspec, ["earned_premium", "earned_exposure", "reported_loss"], "float")
+        ctx.count(f"lesson/{S}/kind={kind}")
+        lesson_case(ctx, b, rng, S, tag, ta, tb, ons=[None, ["country"]],
+                    statics=[None, ["earned_premium", "reported_loss"]], suffixes=[None, "_pm"],
+                    coalesce=[[ta, tb], [tb, ta, ta]], repeat=(j == 0))
+        lesson_case(ctx, b, rng, S, tag + "/swapped", tb, ta, tys=["inner", "left_anti", "full"], statics=[["paid_loss"]])
+        if j in (1, 4):
+            seq_run(ctx, b, rng, ta, tb, Triangle(revalue(rng, tb.cells, "reseeded")), kind, j, tag=f"lesson/{S}/seq", n_steps=4)
+
+
+# ---- lesson 3: dates off the month grid; incremental cells differing in prev only ----------------------
+
+def lesson_offgrid(ctx, b, rng, rep):
+    S = "offgrid"
+    y = 2021
+    ma, mb = Metadata(country="US"), Metadata(country="DE", currency="EUR")
+    periods = [(D(y, 1, 1), D(y, 1, 15)), (D(y, 1, 16), me(y, 1)), (D(y, 2, 1), D(y, 2, 15)), (D(y, 3, 10), D(y, 4, 9)),
+               (D(y, 5, 1), D(y, 5, 15)), (D(y, 5, 1), me(y, 5))]
+
+    def evs_of(pe):
+        # the 15th and the last day of ONE month (cells equal in every month id), then the 15th of the next
+        return [D(pe.year, pe.month + 1, 15), me(pe.year, pe.month + 1), D(pe.year, pe.month + 2, 15)]
+    for j, (tag, lpick, rpick) in enumerate([
+            ("eval-15th-and-month-end/right-15th-only", [0, 1, 2], [0, 2]),
+            ("eval-15th-and-month-end/right-month-end-only", [0, 1, 2], [1]),
+            ("eval-month-end-left/15th-right", [1], [0]),
+            ("eval-15th-and-month-end/both-sides", [0, 1], [0, 1])]):
+        kind = "CUI"[(j + rep) % 3]
+        ctx.count(f"lesson/{S}/kind={kind}")
+
+        def build(pick, fields, vk, metas):
+            cells = []
+            for m in metas:
+                for ps, pe in periods:
+                    e = evs_of(pe)
+                    prev = ps - datetime.timedelta(days=1)
+                    for i in pick:
+                        # incremental: prev = previous evaluation date KEPT on this side (differs between the sides)
+                        cells.append(mk_cell(kind, ps, pe, prev, e[i], {f: gen.rand_value(rng, vk, 3, 0, 64) for f in fields}, m))
+                        prev = e[i]
+            return Triangle(cells)
+        ta = build(lpick, ["paid_loss", "earned_premium"], "int", [ma, mb])
+        tb = build(rpick, ["earned_premium", "reported_loss"], "float", [ma, mb] if j != 2 else [mb])
+        lesson_case(ctx, b, rng, S, tag, ta, tb, ons=[None, ["country"]], statics=[None, ["earned_premium", "reported_loss"]],
+                    suffixes=[None, "_r"], coalesce=[[ta, tb], [tb, ta]])
+        lesson_case(ctx, b, rng, S, tag + "/swapped", tb, ta, tys=["inner", "full", "right_anti"])
+    # incremental: equal (period, evaluation date), DIFFERENT prev_evaluation_date -- between the sides, inside one
+    # side (prev differing by a day within one month / by a year); the join key has prev, coalesce's has not
+    ps, pe = D(y, 1, 1), me(y, 12)
+    e1, e2 = me(y + 1, 6), me(y + 1, 12)
+
+    def inc(prev, ev, vals, m=ma):
+        return IncrementalCell(ps, pe, prev, ev, vals, m)
+    base = [inc(me(y, 12), e1, {"paid_loss": 1}), inc(e1, e2, {"paid_loss": 2}), inc(e1, e2, {"paid_loss": 3}, mb)]
+    for tag, left, right in [
+            ("prev-differs-between-sides/by-a-day", base, [inc(D(y, 12, 30), e1, {"paid_loss": 10}), inc(D(y + 1, 6, 15), e2, {"earned_premium": 20}),
+                                                            inc(e1, e2, {"earned_premium": 30}, mb)]),
+            ("prev-differs-between-sides/by-a-year", base, [inc(me(y - 1, 12), e1, {"paid_loss": 10}), inc(me(y, 12), e2, {"paid_loss": 20})]),
+            ("prev-differs-inside-left", base + [inc(me(y, 12), e2, {"paid_loss": 4})], [inc(e1, e2, {"earned_premium": 5}), inc(me(y, 12), e1, {"x": 1})]),
+            ("prev-differs-inside-right", base, [inc(e1, e2, {"earned_premium": 5}), inc(D(y + 1, 6, 29), e2, {"earned_premium": 6}),
+                                                 inc(me(y, 12), e2, {"earned_premium": 7})])]:
+        ta, tb = Triangle(left), Triangle(right)
+        lesson_case(ctx, b, rng, S, tag, ta, tb, ons=[None, ["country"]], statics=[None, ["earned_premium"]],
+                    suffixes=[None], coalesce=[[ta, tb], [tb, ta]])
+        lesson_case(ctx, b, rng, S, tag + "/swapped", tb, ta, tys=["inner", "full", "left"])
+
+
+# ---- lesson 4: late difference ---------------------------------------------------------------
+
+def lesson_late(ctx, b, rng, rep):
+    S = "late"
+    ma, mb, mz = Metadata(country="DE", details={"k": 1}), Metadata(country="US", details={"k": 1}), Metadata(country="ZZ", details={"k": 2})
+    for j, tag in enumerate(["coalesce/interior-hole-filled-late", "coalesce/first-covers-all-but-one", "coalesce/late-adds-new-slice",
+                             "coalesce/late-adds-new-field", "coalesce/early-triangles-empty", "coalesce/second-and-late-share-a-hole",
+                             "coalesce/interior-hole-filled-late"]):
+        kind = "UCI"[(j + rep) % 3]
+        k = rng.choice([4, 5, 6])
+        late = rng.choice([k - 1, k - 2])
+        rows = gen.layout_regular(rng, res=12, n_periods=3, n_lags=3, start_year=2019, shape="square")
+        fsets = [["paid_loss"], ["paid_loss", "earned_premium"], ["reported_loss"], ["paid_loss", "reported_loss"]]
+        # version t of every coordinate: own values and field set
+        vers = [Triangle(layout_cells(rng, kind, ma, rows, fsets[t % 4], mixed=(t % 2 == 1)) +
+                         layout_cells(rng, kind, mb, rows, fsets[(t + 1) % 4])).cells for t in range(k)]
+        n = len(vers[0])
+        hole = rng.randrange(n // 3, 2 * n // 3)              # interior in the sorted order
+        idx = [set() for _ in range(k)]
+        others = [i for i in range(n) if i != hole]
+        if tag.endswith("interior-hole-filled-late"):
+            early = [t for t in range(k) if t != late]
+            for i in others:                                   # together (no single one) the others cover everything else
+                idx[rng.choice(early)].add(i)
+                for t in early:
+                    if rng.random() < 0.4:
+                        idx[t].add(i)
+            idx[0] |= {0, n - 1, hole - 1, hole + 1}          # the first covers both ends and the hole's neighbours
+            idx[late] = {hole} | set(rng.sample(others, 3))
+        elif tag.endswith("first-covers-all-but-one"):
+            idx[0] = set(others)
+            for t in range(1, k):
+                idx[t] = set(rng.sample(others, rng.randrange(1, n - 1)))
+            idx[late] |= {hole}
+        elif tag.endswith("late-adds-new-slice") or tag.endswith("late-adds-new-field"):
+            idx[0] = set(range(n))
+            for t in range(1, k):
+                idx[t] = set(rng.sample(range(n), rng.randrange(1, n)))
+            idx[late] = set(range(n))
+        elif tag.endswith("early-triangles-empty"):
+            idx[2] = set(rng.sample(others, n // 2))
+            for t in range(3, k):
+                idx[t] = set(rng.sample(range(n), rng.randrange(1, n)))
+            idx[k - 1] |= {hole}
+        else:
+            idx[0] = set(rng.sample(others, n - 3))
+            idx[1] = {hole, others[0]}
+            for t in range(2, k):
+                idx[t] = set(rng.sample(others, rng.randrange(1, n - 1)))
+            idx[late] |= {hole}
+        tris = []
+        for t in range(k):
+            cells = [vers[t][i] for i in sorted(idx[t])]
+            if t == late and tag.endswith("late-adds-new-slice"):
+                cells = cells[:n // 2] + layout_cells(rng, kind, mz, rows[:2], ["paid_loss"])
+            if t == late and tag.endswith("late-adds-new-field"):
+                cells = [vers[0][i].replace(values={**vers[0][i].values, "zz_new": 7}) for i in sorted(idx[t])]
+            tris.append(Triangle(cells))
+        ctx.count(f"lesson/{S}/coalesce-n={k}")
+        ctx.count(f"lesson/{S}/late-position={'last' if late == k - 1 else 'second-to-last'}")
+        lesson_case(ctx, b, rng, S, tag, tris[0], tris[late], tys=["full", "right_anti"], statics=[], suffixes=[],
+                    coalesce=[tris, tris[1:] + tris[:1]], repeat=(j == 0))
+    # joins: the sides agree on every slice but the LAST-sorting one, which differs in exactly one attribute
+    # (values equal to the dataclass defaults on one side included)
+    variants = [("risk_basis", "Accident", None), ("risk_basis", "Accident", "Policy"), ("country", "ZZ", "ZY"),
+                ("currency", None, ""), ("reinsurance_basis", None, ""), ("loss_definition", None, "Loss"),
+                ("per_occurrence_limit", None, 0), ("details", {"k": 9}, {"k": 9, "s": ""}), ("loss_details", {}, {"z": 0})]
+    for j, (attr, lv, rv) in enumerate(variants[:2] + rng.sample(variants[2:], 4) if rep == 0 else variants):
+        kind = "IUC"[(j + rep) % 3]
+        n_sl = rng.choice([3, 4, 5])
+        # (risk_basis None sorts before every string: there the early slices carry None so that the odd one stays last)
+        rb0 = None if (attr, rv) == ("risk_basis", None) else "Accident"
+        kws = [dict(risk_basis=rb0, country=c, details={"k": i}) for i, c in enumerate(["AA", "BB", "CC", "DD", "ZZ"][5 - n_sl:])]
+        kws[-1]["risk_basis"] = "Accident"
+        lk, rk = dict(kws[-1]), dict(kws[-1])
+        lk[attr], rk[attr] = lv, rv
+        lm = [Metadata(**k_) for k_ in kws[:-1]] + [Metadata(**lk)]
+        rm = [Metadata(**k_) for k_ in kws[:-1]] + [Metadata(**rk)]
+        if sorted(lm)[-1] != lm[-1] or sorted(rm)[-1] != rm[-1]:
+            raise common.Infra("lesson late: the odd slice is not the last-sorting one")
+        rows = gen.layout_regular(rng, res=12, n_periods=2, n_lags=2, start_year=2020, shape="square")
+        ta = Triangle([c for m in lm for c in layout_cells(rng, kind, m, rows, ["paid_loss", "earned_premium"])])
+        tb = Triangle([c for m in rm for c in layout_cells(rng, kind, m, rows, ["earned_premium", "reported_loss"], vkind="float")])
+        others = [a for a in SIX if a != attr]
+        akey = {"details": "s", "loss_details": "z"}.get(attr, attr)         # the name that tells the two last slices apart
+        ons = [None, others + ["k"], ["country", akey] if attr != "country" else ["country"], ["country", "k"]]
+        ctx.count(f"lesson/{S}/slices={n_sl}")
+        lesson_case(ctx, b, rng, S, f"join/last-slice-differs-in-{attr}", ta, tb, ons=ons,
+                    statics=[None], suffixes=[None], coalesce=[[ta, tb]])
+
+
+# ---- lesson 5: all-of-them options ------------------------------------------------------------
+
+def lesson_options(ctx, b, rng, rep):
+    S = "options"
+    full = dict(risk_basis="Policy", country="US", currency="USD", reinsurance_basis="Net", loss_definition="Loss+DCC",
+                per_occurrence_limit=250000, details={"k": 1, "s": "x"}, loss_details={"cause": "fire"})
+    full2 = dict(full, country="DE", currency="EUR", per_occurrence_limit=500000.0, details={"k": 2, "s": "x"})
+    # the LAST-sorting slice alone has a detail key ("zz") that no `on` list below names
+    full3 = dict(full, country="ZZ", details={"k": 2, "s": "x", "zz": 1})
+    rows = gen.layout_regular(rng, res=12, n_periods=2, n_lags=2, start_year=2020, shape="square")
+    kind = "UIC"[(rng.randrange(3) + rep) % 3]
+
+    def tri(kws, fields, vk):
+        return Triangle([c for kw in kws for c in layout_cells(rng, kind, Metadata(**kw), rows, fields, vkind=vk)])
+    ta = tri([full, full2, full3], ["paid_loss", "earned_premium"], "int")
+    perm = lambda: rng.sample(SIX, 6)  # noqa: E731
+    dkeys = ["k", "s", "cause"]
+    # the six top-level attributes agree, details / loss_details differ
+    tb1 = tri([dict(full, details={"k": 1, "s": "y"}, loss_details={"cause": "wind"}),
+               dict(full2, details={"k": 2, "s": "y"}, loss_details={}),
+               dict(full3, details={"k": 2, "s": "x", "zz": 2})], ["earned_premium", "reported_loss"], "float")
+    # details / loss_details agree, one top-level attribute differs (limit / currency)
+    tb2 = tri([dict(full, per_occurrence_limit=1e6), dict(full2, currency="GBP"), dict(full3, per_occurrence_limit=0)],
+              ["earned_premium", "reported_loss"], "float")
+    # everything agrees (but "zz" in the last slice)
+    tb3 = tri([full, full2, dict(full3, details={"k": 2, "s": "x", "zz": 3})], ["earned_premium", "earned_exposure"], "float")
+    ons_all = [perm(), perm() + dkeys, perm() + ["details"], ["loss_details"] + perm() + ["details"], dkeys + perm(),
+               dkeys, ["k", "cause", "country"], [a for a in SIX if a != "per_occurrence_limit"] + dkeys,
+               [a for a in SIX if a != "currency"], ["details", "country"], [], None]
+    for tag, tb in [("six-agree/details-differ", tb1), ("details-agree/limit-or-currency-differs", tb2), ("all-agree", tb3)]:
+        lesson_case(ctx, b, rng, S, tag + "/on-list", ta, tb, ons=ons_all, statics=[sorted({k for c in tb.cells for k in c.values})],
+                    suffixes=["_given"], coalesce=[[ta, tb]])
+        lesson_case(ctx, b, rng, S, tag + "/on-tuple", ta, tb, ons=[perm(), perm() + dkeys, dkeys, []], on_impl=tuple,
+                    statics=[], suffixes=[], check_acc=False)
+    lesson_case(ctx, b, rng, S, "all-agree/arguments-omitted", ta, tb3, ons=[], statics=[], suffixes=[], defaults=True)
+
+
+# ---- lesson 6: state keyed by coordinates but not by content -----------------------------------------
+
+def lesson_twin(ctx, b, rng, rep):
+    S = "twin"
+    for j, how in enumerate(["rescaled", "reseeded", "reseeded"]):
+        kind = "UIC"[(j + rep) % 3]
+        left = gen.rand_cells(rng, kind=kind, max_cells=12, n_samples=3, n_slices=2, layout="regular",
+                              fields=["paid_loss", "earned_premium"], vkind=rng.choice(["int", "farr"]))
+        st, a1 = call(Triangle, left)
+        st2, b1 = call(Triangle, perturb_right(rng, left, kind))
+        st3, c1 = call(Triangle, perturb_right(rng, left, kind))
+        if "err" in (st, st2, st3) or not len(b1):
+            continue
+        a2, b2, c2 = (Triangle(revalue(rng, t.cells, how)) for t in (a1, b1, c1))
+        # all-of-them `on` (nothing to remove, no collisions): the six attributes + every detail key in sight
+        dk = sorted({k for t in (a1, b1) for c in t.cells for k in list(c.metadata.details) + list(c.metadata.loss_details)})
+        on = rng.choice([None, rng.sample(SIX, 6) + dk])
+        kw = dict(ons=[None, on] if on else [None], tys=rng.sample(JOIN_TYPES, 3), statics=[None, ["paid_loss", "earned_premium"]],
+                  suffixes=[None, "_t"])
+        ctx.count(f"lesson/{S}/second-{how}")
+        lesson_case(ctx, b, rng, S, "first", a1, b1, coalesce=[[a1, b1, c1], [c1, a1]], repeat=True, defaults=True, **kw)
+        lesson_case(ctx, b, rng, S, "second-same-coordinates-other-values", a2, b2, coalesce=[[a2, b2, c2], [c2, a2]],
+                    repeat=True, defaults=True, **kw)
+        lesson_case(ctx, b, rng, S, "first-again", a1, b1, coalesce=[[a1, b1, c1]], **kw)
+        # the sequence checks on A1.., then on the twin
+        st_ = rng.getstate()
+        seq_run(ctx, b, rng, a1, b1, c1, kind, j, tag=f"lesson/{S}/seq", n_steps=4)
+        rng.setstate(st_)                                     # the same steps for the twin
+        seq_run(ctx, b, rng, a2, b2, c2, kind, j, tag=f"lesson/{S}/seq", n_steps=4)
+
+
+# ---- lesson 7: derived inputs with warm caches ---------------------------------------------------
+
+def lesson_derived(ctx, b, rng, rep):
+    S = "derived"
+    for j in range(1):
+        kind = "UIC"[(rng.randrange(3) + rep) % 3]
+        metas = [Metadata(country="DE", details={"k": 1}), Metadata(country="US", details={"k": 1}), Metadata(country="US", details={"k": 2})]
+        rows = gen.layout_regular(rng, res=12, n_periods=3, n_lags=3, start_year=2019, shape=rng.choice(["square", "triangle"]))
+        parent = Triangle([c for m in metas for c in layout_cells(rng, kind, m, rows, ["paid_loss", "reported_loss", "earned_premium"])])
+        source = Triangle([c for m in metas[1:] + [Metadata(country="FR")]
+                           for c in layout_cells(rng, kind, m, rows, ["earned_premium", "earned_exposure"], vkind="float")])
+        # every cached accessor of the parents read first; one add_statics / period_merge / merge / coalesce on them
+        for t in (parent, source):
+            c09_seq.read_accessors(t)
+            accessors(t)
+        call(lambda: parent.add_statics(source))
+        call(lambda: parent.period_merge(source.right_edge))
+        call(lambda: parent.merge(source))
+        call(lambda: parent.coalesce([source]))
+        call(lambda: bermuda.join(parent, source))
+        mid_eval = sorted({c.evaluation_date for c in parent.cells})[1]
+        last_ps = parent.cells[-1].period_start
+        derive = [
+            ("filter-slice", lambda t: t.filter(lambda c: c.metadata.country == "US")),
+            ("filter-period", lambda t: t.filter(lambda c: c.period_start != last_ps)),
+            ("clip-eval", lambda t: t.clip(max_eval=mid_eval)),
+            ("clip-period", lambda t: t.clip(min_period=D(2020, 1, 1))),
+            ("slice-index", lambda t: t[len(t) // 3:]),
+            ("slice-coords", lambda t: t[D(2020, 1, 1):, :, :]),
+            ("select", lambda t: t.select(["earned_premium", "paid_loss", "earned_exposure"])),
+            ("derive_metadata", lambda t: t.derive_metadata(currency="USD")),
+            ("derive_fields", lambda t: t.derive_fields(zz=lambda c: 1)),
+            ("right_edge", lambda t: t.right_edge),
+        ]
+        for name, f in derive:
+            st, d = call(f, parent)
+            st2, ds = call(f, source)
+            if st != "ok" or st2 != "ok":
+                raise common.Infra(f"lesson derived: {name} failed on the parent")
+            # the derived triangle as LEFT operand (source untouched parent), as RIGHT operand, and on both sides
+            lesson_case(ctx, b, rng, S, f"{name}/left", d, source, ons=[], statics=[], suffixes=[], coalesce=[[d, source]], defaults=True)
+            lesson_case(ctx, b, rng, S, f"{name}/right", parent, ds, ons=[], statics=[], suffixes=[], coalesce=[[ds, parent]], defaults=True)
+            if name in ("filter-slice", "select", "slice-index"):
+                lesson_case(ctx, b, rng, S, f"{name}/both", d, ds, ons=[["country", "k"]], tys=["inner", "full"], coalesce=[[d, ds, parent]], defaults=True)
+                seq_run(ctx, b, rng, d, ds, source, kind, j, tag=f"lesson/{S}/seq", n_steps=3)
+
+
+# ---- lesson 8: falsy everywhere -------------------------------------------------------------
+
+def lesson_falsy(ctx, b, rng, rep):
+    S = "falsy"
+    kind = "CUI"[(rng.randrange(3) + rep) % 3]
+    ma, mb = Metadata(country="US"), Metadata(country="DE")
+    rows = gen.layout_regular(rng, res=12, n_periods=2, n_lags=2, start_year=2020, shape="square")
+    truthy = {"f_int": 5, "f_float": 2.5, "f_arr": np.array([1.0, 2.0, 3.0]), "f_none": 7, "f_bool": 1, "f_iarr": np.array([3, 4, 5]),
+              "earned_premium": 100.0, "earned_exposure": 3}
+    falsy = {"f_int": 0, "f_float": 0.0, "f_arr": np.array([]), "f_none": None, "f_bool": False, "f_iarr": np.array([0, 0, 0]),
+             "earned_premium": 0.0, "earned_exposure": None}
+
+    def tri(vals, metas=(ma, mb), shuffle=False):
+        cells = []
+        for m in metas:
+            for c in layout_cells(rng, kind, m, rows, ["x"]):
+                ks = list(vals)
+                if shuffle:
+                    rng.shuffle(ks)
+                cells.append(c.replace(values={k: (vals[k].copy() if isinstance(vals[k], np.ndarray) else vals[k]) for k in ks}))
+        return Triangle(cells)
+    names = list(truthy)
+    for tag, lv, rv in [("values/right-falsy-left-truthy", truthy, falsy), ("values/left-falsy-right-truthy", falsy, truthy),
+                        ("values/both-falsy", falsy, falsy)]:
+        ta, tb = tri(lv), tri(rv, shuffle=True)
+        lesson_case(ctx, b, rng, S, tag, ta, tb, statics=[None, names, ["f_none", "f_int"]], suffixes=[None, "", "_s"],
+                    coalesce=[[ta, tb], [tb, ta]])
+    # details / limit / strings falsy in EVERY slice on both sides; `on` with and without them
+    for tag, kws, ons in [
+            ("metadata/limit-0", [dict(country="US", per_occurrence_limit=0), dict(country="DE", per_occurrence_limit=0)],
+             [None, ["per_occurrence_limit", "country"], ["country"], SIX]),
+            ("metadata/limit-0.0", [dict(country="US", per_occurrence_limit=0.0), dict(country="DE", per_occurrence_limit=0.0)],
+             [None, ["country", "per_occurrence_limit"], SIX]),
+            ("metadata/details-0-False-empty", [dict(country="US", details={"k": 0, "flag": False, "s": ""}, loss_details={"z": 0.0}),
+                                                dict(country="DE", details={"k": 0, "flag": False, "s": ""}, loss_details={"z": 0.0})],
+             [None, ["k", "flag", "s", "z", "country"], ["country"], ["flag", "country"], SIX + ["s"]]),
+            ("metadata/strings-empty", [dict(country="", currency="", reinsurance_basis="", loss_definition="", details={"k": 1}),
+                                        dict(country="", currency="", reinsurance_basis="", loss_definition="", details={"k": 2})],
+             [None, SIX + ["k"], ["country", "currency", "k"], ["k"]]),
+            ("metadata/risk_basis-None", [dict(risk_basis=None, country="US"), dict(risk_basis=None, country="DE")],
+             [None, ["risk_basis", "country"], ["country"]])]:
+        ta = Triangle([c for kw in kws for c in layout_cells(rng, kind, Metadata(**kw), rows, ["paid_loss", "earned_premium"])])
+        tb = Triangle([c for kw in kws for c in layout_cells(rng, kind, Metadata(**kw), rows, ["earned_premium", "reported_loss"], vkind="float")])
+        lesson_case(ctx, b, rng, S, tag, ta, tb, ons=ons, coalesce=[[ta, tb]])
+    # empty operands on either side and on both, every operator and join type
+    t1 = tri(truthy)
+    e = Triangle([])
+    for tag, ta, tb in [("empty/left", e, t1), ("empty/right", t1, e), ("empty/both", e, Triangle([]))]:
+        lesson_case(ctx, b, rng, S, tag, ta, tb, ons=[None, [], SIX, ["country"]], statics=[None, [], names],
+                    suffixes=[None, "", "_s"], pm_right=tb, coalesce=[[ta, tb], [tb, ta, e], [e], []], defaults=True)
+    # add_statics: no field / every field / a field the source lacks / argument omitted; period_merge +- suffix
+    src = tri({"earned_premium": 0, "f_int": 0, "f_none": None})
+    lesson_case(ctx, b, rng, S, "statics/none-every-missing-default", t1, src, ons=[], 
+                statics=[[], names, ["not_in_source"], ["not_in_source", "earned_premium"], None, ["earned_premium"] * 2],
+                suffixes=[None, "", "_s", "0"], defaults=True)
+
+
+LESSONS = [lesson_large, lesson_overlap, lesson_offgrid, lesson_late, lesson_options, lesson_twin, lesson_derived, lesson_falsy]
+
+
+def lesson_stream(ctx, b, rng, reps):
+    for rep in range(reps):
+        for f in LESSONS:
+            f(ctx, b, rng, rep)
 
 
 def canon_model_vs_impl(op, model, impl_wire):
@@ -719,6 +1336,8 @@ def correspondence(ctx):
         exhaustive(ctx, b, rng, 4, rng.choice(["C", "U"]), False, 3)
         random_stream(ctx, b, rng, 200)
         sequence_stream(ctx, b, rng, 100)
+    if os.environ.get("VERIF_SKIP_LESSONS") != "1":
+        lesson_stream(ctx, b, rng, 4 if ctx.thorough else 1)
     res = b.run(drv)
     all_items = [it for _, items in b.batches for it in items]
     for meta, item, out in zip(b.metas, all_items, res):
@@ -757,7 +1376,9 @@ if __name__ == "__main__":
              "triple of sub-triangles for coalesce; designed + seeded random universes, cumulative / incremental / "
              "plain cells. random: larger pairs (overlap, disjoint, empty, self, class mismatch, duplicate coordinates, "
              "prev-only variants), random `on` over all attributes and detail keys (15%: all six top-level attributes permuted, +- a detail key), unknown join type, coalesce given non-list containers (ValueError) / method with any iterable. sequence: 8-14 "
-             "calls on one target with two sources, each call twice, results spoiled in between, accessors before/after. distinct = "
+             "calls on one target with two sources, each call twice, results spoiled in between, accessors before/after. "
+             "lessons: fixed quota per run of large / non-disjoint / off-grid / late-difference / all-options / twin / "
+             "derived-with-warm-caches / falsy-everywhere operands (see the module docstring), same checks. distinct = "
              "distinct (universe, masks, parameters) / input dump; non-trivial = both operands non-empty",
         assumptions=["operands are Triangles (sorted cell lists of one class) with NaN-free values",
                      "keys are distinct inside each operand after the `on` reduction (otherwise: compared with the model only)",
